@@ -557,7 +557,7 @@ fn gen_shortcut_raw(rng: &mut Rng, cfg: &GenCfg) -> Node {
         // X*Y with related / unrelated / anchor followers -> unambiguous-repeat rewrite
         3 | 4 => {
             let x = single(rng);
-            let y = match rng.below(10) {
+            let y = match rng.below(12) {
                 0 => Node::Bol,
                 1 => Node::Eol,
                 // a plain alternation of single terms (its first-character set is the union of the
@@ -571,7 +571,7 @@ fn gen_shortcut_raw(rng: &mut Rng, cfg: &GenCfg) -> Node {
                 }
                 // an alternation one of whose branches may or may not start with the repeated term:
                 // an optional (greedy or reluctant) lead-in followed by the repeated term itself
-                8 => {
+                8 | 10 | 11 => {
                     let lead = Node::Repeat { body: Box::new(single(rng)), min: 0, max: if rng.chance(1, 2) { Some(1) } else { None }, greedy: rng.chance(1, 2), spell: 0 };
                     let other = single(rng);
                     let first = Node::Cat(vec![lead, x.clone()]);
